@@ -27,8 +27,19 @@ class Base(Scenario):
         super().__init__(**params)
         self.a = bool(params.get("a", 0))
         self.record_interruptions = bool(params.get("ri", 0))
+        self.log_yields = bool(params.get("ly", 0))  # log what every yield of the plan receives (C12, C13)
+        self.on_error = "swallow" if params.get("oe") == "s" else "propagate"
         if params.get("rr"):
             self.re_kwargs = {"call_returns_result": True}
+
+    def apply_common(self, RE, d):
+        if self.params.get("pp"):
+            # engine-level preprocessors that change nothing
+            import bluesky.preprocessors as bpp
+
+            RE.preprocessors.append(lambda plan: bpp.plan_mutator(plan, lambda msg: (None, None)))
+            RE.preprocessors.append(lambda plan: bpp.msg_mutator(plan, lambda msg: msg))
+            RE.preprocessors.append(bpp.SupplementalData())
 
 
 @register
